@@ -26,6 +26,18 @@ type c10Emit struct {
 	Typed bool   `json:"typed,omitempty"` // _meta passed as mcp.Meta instead of a plain map
 	// MetaOnly (custom + meta): the params consist of _meta alone, there is no ordinary field
 	MetaOnly bool `json:"meta_only,omitempty"`
+	// PMode (progress): which value the emission reports - "" its index (increasing), "flat" always 1, "down" 100 - index
+	PMode string `json:"pmode,omitempty"`
+}
+
+func (e c10Emit) progress() float64 {
+	switch e.PMode {
+	case "flat":
+		return 1
+	case "down":
+		return float64(100 - e.I)
+	}
+	return float64(e.I)
 }
 
 type c10Scenario struct {
@@ -34,6 +46,8 @@ type c10Scenario struct {
 	Mode    string    `json:"mode"`
 	Reg     []string  `json:"reg"`
 	Emitted []c10Emit `json:"emitted"`
+	// Rereg: the handlers are registered twice - first stand-ins, which see one warm-up call, then the real ones for the same methods
+	Rereg bool `json:"rereg,omitempty"`
 }
 
 type c10Deliver struct {
@@ -90,9 +104,9 @@ func c10Send(ctx context.Context, nonce string, e c10Emit) error {
 	}
 	switch {
 	case e.Kind == "progress" && !e.Meta:
-		return sender.SendProgress(float64(e.I), msg)
+		return sender.SendProgress(e.progress(), msg)
 	case e.Kind == "progress" && e.Meta:
-		return sender.SendNotification(mcp.NewNotification(c10Method["progress"], map[string]interface{}{"progress": float64(e.I), "message": msg, "_meta": meta}))
+		return sender.SendNotification(mcp.NewNotification(c10Method["progress"], map[string]interface{}{"progress": e.progress(), "message": msg, "_meta": meta}))
 	case e.Kind == "log" && !e.Meta:
 		return sender.SendLogMessage("info", msg)
 	case e.Kind == "log" && e.Meta:
@@ -159,8 +173,9 @@ func c10Check(n *mcp.JSONRPCNotification) (nonce string, i int, meta bool, intac
 	}
 	switch kind {
 	case "progress":
-		if p, _ := af["progress"].(float64); p != float64(i) {
-			intact, detail = false, fmt.Sprintf("progress %v != %d", af["progress"], i)
+		// the value is compared by the caller, which knows the emission
+		if _, ok := af["progress"].(float64); !ok {
+			intact, detail = false, fmt.Sprintf("progress %v is not a number", af["progress"])
 		}
 	case "log":
 		if l, _ := af["level"].(string); l != "info" {
@@ -236,6 +251,31 @@ func c10RunGroup(group []c10Scenario) []c10Result {
 		results[0].Broken = "initialize: " + err.Error()
 		return results
 	}
+	if group[0].Rereg {
+		replaced := false
+		for _, kind := range group[0].Reg {
+			kind := kind
+			client.RegisterNotificationHandler(c10Method[kind], func(n *mcp.JSONRPCNotification) error {
+				mu.Lock()
+				defer mu.Unlock()
+				if replaced {
+					results[0].Delivered = append(results[0].Delivered, c10Deliver{Kind: kind, Intact: false, Detail: "delivered to a handler that had been replaced by a later registration for the same method"})
+				}
+				return nil
+			})
+		}
+		req := &mcp.CallToolRequest{}
+		req.Params.Name = "emit"
+		req.Params.Arguments = map[string]interface{}{"nonce": "warm-" + group[0].ID, "script": group[0].Emitted}
+		if _, err := client.CallTool(ctx, req); err != nil {
+			results[0].Broken = "warm-up call: " + err.Error()
+			return results
+		}
+		defer func() { mu.Lock(); replaced = false; mu.Unlock() }()
+		mu.Lock()
+		replaced = true
+		mu.Unlock()
+	}
 	for _, kind := range group[0].Reg {
 		client.RegisterNotificationHandler(c10Method[kind], func(n *mcp.JSONRPCNotification) error {
 			nonce, i, meta, intact, detail := c10Check(n)
@@ -246,6 +286,14 @@ func c10RunGroup(group []c10Scenario) []c10Result {
 				k = 0
 				detail = "unattributable notification: " + detail
 				intact = false
+			} else if n.Method == c10Method["progress"] && intact {
+				for _, e := range group[k].Emitted {
+					if e.Kind == "progress" && e.I == i {
+						if p, _ := n.Params.AdditionalFields["progress"].(float64); p != e.progress() {
+							intact, detail = false, fmt.Sprintf("progress %v != %v", n.Params.AdditionalFields["progress"], e.progress())
+						}
+					}
+				}
 			}
 			results[k].Delivered = append(results[k].Delivered, c10Deliver{Kind: c10Kind(n.Method), Meta: meta, I: i, Intact: intact, Detail: detail, AfterRet: returned[nonce]})
 			ev(group[k].ID, map[string]interface{}{"e": "deliver", "kind": c10Kind(n.Method), "meta": meta, "i": i})
